@@ -43,6 +43,25 @@ impl PartialEq for ByteString {
     #[verifier::external_body]
     fn eq(&self, other: &ByteString) -> (r: bool) { unimplemented!() }
 }
+// std HashSet<ByteString> made from a slice (rewrite D19, cloned form): holds exactly the byte strings of the slice
+#[verifier::external_body]
+#[verifier::reject_recursive_types(T)]
+pub struct HashSet<T> { t: std::marker::PhantomData<T> }
+impl HashSet<ByteString> {
+    pub uninterp spec fn ids(&self) -> Set<Option<Seq<u8>>>;
+    #[verifier::external_body]
+    pub fn contains(&self, x: &ByteString) -> (r: bool) ensures r == self.ids().contains(bs(*x)) { unimplemented!() }
+    #[verifier::external_body]
+    pub fn len(&self) -> (r: usize) ensures r == self.ids().len() { unimplemented!() }
+    #[verifier::external_body]
+    pub fn is_empty(&self) -> (r: bool) ensures r == (self.ids().len() == 0) { unimplemented!() }
+}
+#[verifier::external_body]
+pub fn cloned_into_set(v: &[ByteString]) -> (r: HashSet<ByteString>)
+    ensures forall|x: Option<Seq<u8>>| #[trigger] r.ids().contains(x) == (exists|i: int| 0 <= i < v@.len() && bs(#[trigger] v@[i]) == x)
+{ unimplemented!() }
+// the id of a stored point is among the ids to release
+pub open spec fn named(ids: Seq<ByteString>, cp: BrowseContinuationPoint) -> bool { exists|i: int| 0 <= i < ids.len() && bs(#[trigger] ids[i]) == bs(cp.id) }
 pub mod random { use vstd::prelude::*; use super::ByteString; verus! {
     // crypto::random::byte_string(n): n random bytes, never the null byte string
     #[verifier::external_body]
@@ -148,6 +167,10 @@ SPEC = {
             // exactly the points made before the last modification of the address space go, the others stay in order
             final(self).browse_continuation_points@ == old(self).browse_continuation_points@.filter(
                 |cp: BrowseContinuationPoint| cp.address_space_last_modified >= address_space.last_modified),'''),
+    'remove_browse_continuation_points': (None, '''        ensures final(self).max_browse_continuation_points == old(self).max_browse_continuation_points,
+            // BrowseNext with releaseContinuationPoints: exactly the named points go, the others stay in order
+            final(self).browse_continuation_points@ == old(self).browse_continuation_points@.filter(
+                |cp: BrowseContinuationPoint| !named(continuation_points@, cp)),'''),
     'reference_description_to_browse_result': ('r', '''        requires starting_index <= reference_descriptions@.len(), session_ok(*old(session)),
         ensures
             is_page(r, reference_descriptions@, starting_index as int, max_references_per_node as int,
@@ -219,6 +242,7 @@ def build(manifest):
     rewrites = []
     f['find_browse_continuation_point'] = position_to_loop(norm_vis(clean_fn(se.impl_fn(r'^impl Session \{', 'find_browse_continuation_point'))), rewrites)
     f['remove_expired_browse_continuation_points'] = retain_to_loop(norm_vis(clean_fn(se.impl_fn(r'^impl Session \{', 'remove_expired_browse_continuation_points'))), rewrites)
+    f['remove_browse_continuation_points'] = retain_to_loop(into_iter_collect_to_env(norm_vis(clean_fn(se.impl_fn(r'^impl Session \{', 'remove_browse_continuation_points'))), rewrites), rewrites)
     f['is_valid_browse_continuation_point'] = norm_vis(clean_fn(cp.impl_fn(r'^impl BrowseContinuationPoint \{', 'is_valid_browse_continuation_point')))
     for k in f:
         t = f[k]
@@ -274,6 +298,27 @@ def build(manifest):
         k = h.rindex('}')
         h = h[:k] + '        proof { assert(q0.subrange(0, q0.len() as int) =~= q0); }\n    }\n'
     f['remove_expired_browse_continuation_points'] = h
+    h = f['remove_browse_continuation_points']
+    if rewrites.count('D18 retain over self.browse_continuation_points') >= 2 and re.search(r'^\s*while\b', h, re.M):
+        h = splice_at(h, r'^\s*while\b', '''        let ghost q0 = self.browse_continuation_points@;
+        let ghost mut done: int = 0;''', before=True)
+        h = splice_loop(h, 0, '''            invariant 0 <= done <= q0.len(), idx_continuation_point <= self.browse_continuation_points@.len(),
+                self.max_browse_continuation_points == old(self).max_browse_continuation_points,
+                forall|x: Option<Seq<u8>>| #[trigger] continuation_points_set.ids().contains(x) == (exists|i: int| 0 <= i < continuation_points@.len() && bs(#[trigger] continuation_points@[i]) == x),
+                idx_continuation_point == q0.subrange(0, done).filter(|cp: BrowseContinuationPoint| !named(continuation_points@, cp)).len(),
+                self.browse_continuation_points@ == q0.subrange(0, done).filter(|cp: BrowseContinuationPoint| !named(continuation_points@, cp))
+                    + q0.subrange(done, q0.len() as int),
+            decreases q0.len() - done,''')
+        h = splice_at(h, r'^\s*if keep_continuation_point \{', '''            proof {
+                assert(q0.subrange(0, done + 1).drop_last() =~= q0.subrange(0, done));
+                reveal_with_fuel(Seq::filter, 2);
+                assert(keep_continuation_point == !named(continuation_points@, q0[done]));
+                done = done + 1;
+            }''', before=True)
+        h = h.rstrip()
+        k = h.rindex('}')
+        h = h[:k] + '        proof { assert(q0.subrange(0, q0.len() as int) =~= q0); }\n    }\n'
+    f['remove_browse_continuation_points'] = h
     types = '\n'.join([
         br.struct('BrowseResult'),
         cp.struct('BrowseContinuationPoint'),
@@ -290,6 +335,7 @@ def build(manifest):
     a.add(f['add_browse_continuation_point'], 'add_browse_continuation_point', 'fn')
     a.add(f['find_browse_continuation_point'], 'find_browse_continuation_point', 'fn')
     a.add(f['remove_expired_browse_continuation_points'], 'remove_expired_browse_continuation_points', 'fn')
+    a.add(f['remove_browse_continuation_points'], 'remove_browse_continuation_points', 'fn')
     a.add('}\npub struct ViewService { pub x: u8 }\nimpl ViewService {')
     a.add(f['reference_description_to_browse_result'], 'reference_description_to_browse_result', 'fn')
     a.add(f['browse_from_continuation_point'], 'browse_from_continuation_point', 'fn')
